@@ -208,4 +208,17 @@ def save (dct : List (Str × Str)) (xmlCT relsCT : Str) (L : Loaded) : Saved :=
 def Saved.toPhys (s : Saved) : Phys :=
   { defaults := s.defaults, overrides := s.overrides, members := s.parts.map (·.1), rels := s.rels }
 
+/-- `api._is_pptx_package`: the main part's content type is that of a presentation (plain or macro-enabled); a template,
+    a slide show, any other main part is not one -/
+def isPresentationType (ct : Str) : Bool :=
+  ct == "application/vnd.openxmlformats-officedocument.presentationml.presentation.main+xml".toList ||
+  ct == "application/vnd.ms-powerpoint.presentation.macroEnabled.main+xml".toList
+
+/-- `Presentation(pkg_file)` after the package loaded: the part the office-document relationship leads to must be a
+    presentation part; `none` = `KeyError` (no such relationship), `some false` = `ValueError`, `some true` = opened -/
+def openVerdict (L : Loaded) (rtOfficeDoc : Str) : Option Bool :=
+  match L.pkgRels.find? (fun r => r.rtype == rtOfficeDoc && !r.external) with
+  | none => none
+  | some r => (partByName L r.target).map fun q => isPresentationType q.ct
+
 end Pptx.Opc
